@@ -47,65 +47,210 @@ Proof. destruct c; cbn; tauto. Qed.
 Lemma all_codes_complete (k : code) : In k all_codes.
 Proof. destruct k; cbn; tauto. Qed.
 
-(** * Chains: errors.Is, errors.As *)
+(** * Induction over error trees (the operands of a Multi layer are in a list) *)
 
-(* the sentinel at the end of the chain, if any *)
-Fixpoint leaf_class (e : err) : option class :=
-  match e with
-  | Sentinel c => Some c
-  | Plain _ => None
-  | Status _ _ => None
-  | Wrap _ e' => leaf_class e'
-  | Glue _ e' => leaf_class e'
-  | Embed _ e' => leaf_class e'
-  end.
+Section ErrTreeInd.
+  Variable P : err -> Prop.
+  Hypothesis HSent : forall c, P (Sentinel c).
+  Hypothesis HPlain : forall t, P (Plain t).
+  Hypothesis HIsLeaf : forall c t, P (IsLeaf c t).
+  Hypothesis HStatus : forall k m, P (Status k m).
+  Hypothesis HWrap : forall t e, P e -> P (Wrap t e).
+  Hypothesis HGlue : forall t e, P e -> P (Glue t e).
+  Hypothesis HEmbed : forall o e, P e -> P (Embed o e).
+  Hypothesis HMulti : forall t0 ps, Forall (fun p => P (fst p)) ps -> P (Multi t0 ps).
 
-Lemma is_chain_leaf (e : err) (c : class) :
-  is_chain e c = match leaf_class e with Some c0 => class_eqb c0 c | None => false end.
-Proof. induction e as [c0|t|k m|t e IH|t e IH|o e IH]; cbn [is_chain leaf_class]; auto. Qed.
+  Fixpoint err_tree_ind (e : err) : P e :=
+    match e with
+    | Sentinel c => HSent c
+    | Plain t => HPlain t
+    | IsLeaf c t => HIsLeaf c t
+    | Status k m => HStatus k m
+    | Wrap t e' => HWrap t e' (err_tree_ind e')
+    | Glue t e' => HGlue t e' (err_tree_ind e')
+    | Embed o e' => HEmbed o e' (err_tree_ind e')
+    | Multi t0 ps =>
+        HMulti t0 ps
+          ((fix go (l : list (err * msg)) : Forall (fun p => P (fst p)) l :=
+              match l with
+              | [] => Forall_nil _
+              | p :: r =>
+                  match p as p0 return Forall (fun p => P (fst p)) (p0 :: r) with
+                  | (e', t) => Forall_cons (e', t) (err_tree_ind e' : P (fst (e', t))) (go r)
+                  end
+              end) ps)
+    end.
+End ErrTreeInd.
 
-(** at most one class matches a chain: the order in which GRPCStatusCode
-    visits the rows of errorsToCode cannot matter *)
-Lemma is_chain_unique (e : err) (c1 c2 : class) :
-  is_chain e c1 = true -> is_chain e c2 = true -> c1 = c2.
+(** * Trees: errors.Is, errors.As *)
+
+Lemma existsb_class_app (c : class) (a b : list class) :
+  existsb (fun c0 => class_eqb c0 c) (a ++ b) =
+  existsb (fun c0 => class_eqb c0 c) a || existsb (fun c0 => class_eqb c0 c) b.
+Proof. apply existsb_app. Qed.
+
+(* errors.Is finds exactly the classes that stand somewhere in the tree *)
+Lemma is_chain_classes (e : err) (c : class) :
+  is_chain e c = existsb (fun c0 => class_eqb c0 c) (classes_of e).
 Proof.
-  rewrite !is_chain_leaf. destruct (leaf_class e) as [c0|]; [|discriminate].
+  induction e as [c0|t|c0 t|k m|t e IH|t e IH|o e IH|t0 ps IH] using err_tree_ind;
+    cbn [is_chain classes_of existsb]; rewrite ?orb_false_r; auto.
+  induction IH as [|[e' t'] r Hp Hr IHr]; [reflexivity|].
+  cbn [existsb flat_map fst] in *. rewrite existsb_class_app, Hp, IHr. reflexivity.
+Qed.
+
+Lemma uniform_tail (c0 c : class) (r : list class) :
+  forallb (class_eqb c0) r = true -> class_eqb c0 c = false ->
+  existsb (fun c1 => class_eqb c1 c) r = false.
+Proof.
+  intros Hall Hne. induction r as [|c1 r IH]; [reflexivity|].
+  cbn [forallb] in Hall. apply andb_true_iff in Hall as [H1 Hr].
+  apply class_eqb_eq in H1. subst c1. cbn [existsb]. rewrite Hne, (IH Hr). reflexivity.
+Qed.
+
+(* in a tree with one class, errors.Is answers for that class only *)
+Lemma is_chain_leaf (e : err) (c : class) :
+  uniform e = true ->
+  is_chain e c = match the_class e with Some c0 => class_eqb c0 c | None => false end.
+Proof.
+  rewrite is_chain_classes. unfold uniform, the_class.
+  destruct (classes_of e) as [|c0 r]; [reflexivity|]. cbn [hd_error existsb]. intros Hu.
+  destruct (class_eqb c0 c) eqn:E; [reflexivity|]. apply (uniform_tail c0 c r Hu E).
+Qed.
+
+(** at most one class matches a tree with one class: the order in which
+    GRPCStatusCode visits the rows of errorsToCode cannot matter *)
+Lemma is_chain_unique (e : err) (c1 c2 : class) :
+  uniform e = true -> is_chain e c1 = true -> is_chain e c2 = true -> c1 = c2.
+Proof.
+  intros Hu. rewrite !(is_chain_leaf e _ Hu). destruct (the_class e) as [c0|]; [|discriminate].
   rewrite !class_eqb_eq. congruence.
 Qed.
+
+(* a chain (no layer with several operands) has at most one class *)
+Lemma classes_of_linear (e : err) : err_linear e = true -> (length (classes_of e) <= 1)%nat.
+Proof.
+  induction e as [c0|t|c0 t|k m|t e IH|t e IH|o e IH|t0 ps IH] using err_tree_ind;
+    cbn [err_linear classes_of length]; auto; discriminate.
+Qed.
+
+Lemma linear_uniform (e : err) : err_linear e = true -> uniform e = true.
+Proof.
+  intros H. apply classes_of_linear in H. unfold uniform.
+  destruct (classes_of e) as [|c [|c' r]]; cbn in *; [reflexivity|reflexivity|lia].
+Qed.
+
+Lemma is_chain_unique_linear (e : err) (c1 c2 : class) :
+  err_linear e = true -> is_chain e c1 = true -> is_chain e c2 = true -> c1 = c2.
+Proof. intros H. apply is_chain_unique, linear_uniform, H. Qed.
 
 Lemma status_code_inner (e : err) :
   status_code e = match inner_status e with Some k => k | None => Unknown end.
 Proof.
   unfold status_code, from_error.
-  destruct e as [c|t|k m|t e|t e|o e]; cbn [inner_status fst]; try reflexivity;
-    destruct (inner_status e); reflexivity.
+  destruct e as [c|t|c t|k m|t e|t e|o e|t0 ps]; try reflexivity;
+    destruct (inner_status _); reflexivity.
 Qed.
 
 Lemma from_error_not_status (e : err) :
   inner_status e = None -> from_error e = (Unknown, message e).
 Proof.
-  intros H. unfold from_error. destruct e as [c|t|k m|t e|t e|o e]; try reflexivity;
+  intros H. unfold from_error. destruct e as [c|t|c t|k m|t e|t e|o e|t0 ps]; try reflexivity;
     try (rewrite H; reflexivity). discriminate H.
 Qed.
 
-(* a chain ends either in a sentinel or in a status error *)
-Lemma inner_status_no_class (e : err) (k : code) :
-  inner_status e = Some k -> leaf_class e = None.
-Proof. induction e as [c0|t|k0 m|t e IH|t e IH|o e IH]; cbn; auto; discriminate. Qed.
+(** side operands that bring neither a class nor a status error *)
+
+Lemma side_ok_spec (s : err) : side_ok s = true -> classes_of s = [] /\ inner_status s = None.
+Proof.
+  unfold side_ok. destruct (classes_of s); [|discriminate].
+  destruct (inner_status s); [discriminate|auto].
+Qed.
+
+Lemma sides_classes (ps : list (err * msg)) :
+  forallb (fun p => side_ok (fst p)) ps = true ->
+  flat_map (fun p => let '(e', _) := p in classes_of e') ps = [].
+Proof.
+  induction ps as [|[s t] r IH]; [reflexivity|]. cbn [forallb flat_map fst].
+  intros H. apply andb_true_iff in H as [Hs Hr].
+  destruct (side_ok_spec s Hs) as [-> _]. exact (IH Hr).
+Qed.
+
+Lemma sides_status (ps rest : list (err * msg)) :
+  forallb (fun p => side_ok (fst p)) ps = true ->
+  first_some (fun p => let '(e', _) := p in inner_status e') (ps ++ rest) =
+  first_some (fun p => let '(e', _) := p in inner_status e') rest.
+Proof.
+  induction ps as [|[s t] r IH]; [reflexivity|]. cbn [forallb app first_some fst].
+  intros H. apply andb_true_iff in H as [Hs Hr].
+  destruct (side_ok_spec s Hs) as [_ ->]. exact (IH Hr).
+Qed.
+
+Lemma forallb_app_true {A} (f : A -> bool) (a b : list A) :
+  forallb f (a ++ b) = true -> forallb f a = true /\ forallb f b = true.
+Proof. rewrite forallb_app. apply andb_true_iff. Qed.
+
+Lemma ctx_sides_ok_cons (f : frame) (r : ctx) :
+  ctx_sides_ok (f :: r) = true <-> frame_sides_ok f = true /\ ctx_sides_ok r = true.
+Proof. unfold ctx_sides_ok. cbn [forallb]. apply andb_true_iff. Qed.
+
+(* a context whose side operands bring nothing: the classes and the status of
+   the tree are those of what stands in the hole *)
+Lemma classes_of_plug (x : ctx) (e : err) :
+  ctx_sides_ok x = true -> classes_of (plug x e) = classes_of e.
+Proof.
+  induction x as [|[t|t|o|t0 b t a] r IH]; intros Hx; [reflexivity| | | |];
+    apply ctx_sides_ok_cons in Hx as [Hf Hr]; cbn [plug classes_of]; auto.
+  cbn [frame_sides_ok] in Hf. apply forallb_app_true in Hf as [Hb Ha].
+  rewrite flat_map_app. cbn [flat_map]. rewrite (sides_classes b Hb), (sides_classes a Ha).
+  cbn [app]. rewrite app_nil_r. exact (IH Hr).
+Qed.
+
+Lemma inner_status_plug (x : ctx) (e : err) :
+  ctx_sides_ok x = true -> inner_status (plug x e) = inner_status e.
+Proof.
+  induction x as [|[t|t|o|t0 b t a] r IH]; intros Hx; [reflexivity| | | |];
+    apply ctx_sides_ok_cons in Hx as [Hf Hr]; cbn [plug inner_status]; auto.
+  cbn [frame_sides_ok] in Hf. apply forallb_app_true in Hf as [Hb Ha].
+  rewrite (sides_status b _ Hb). cbn [first_some]. rewrite (IH Hr).
+  destruct (inner_status e); [reflexivity|].
+  rewrite <- (app_nil_r a), (sides_status a [] Ha). reflexivity.
+Qed.
+
+Lemma one_class_per_tree (x : ctx) (e : err) :
+  ctx_sides_ok x = true ->
+  classes_of (plug x e) = classes_of e /\ inner_status (plug x e) = inner_status e.
+Proof. intros H. split; [exact (classes_of_plug x e H)|exact (inner_status_plug x e H)]. Qed.
 
 Lemma is_chain_plug (x : ctx) (e : err) (c : class) :
-  is_chain (plug x e) c = is_chain e c.
-Proof. induction x as [|[t|t|o] r IH]; cbn [plug is_chain]; auto. Qed.
+  ctx_sides_ok x = true -> is_chain (plug x e) c = is_chain e c.
+Proof. intros Hx. rewrite !is_chain_classes, (classes_of_plug x e Hx). reflexivity. Qed.
 
-Lemma leaf_class_plug (x : ctx) (e : err) : leaf_class (plug x e) = leaf_class e.
-Proof. induction x as [|[t|t|o] r IH]; cbn [plug leaf_class]; auto. Qed.
+Lemma the_class_plug (x : ctx) (e : err) :
+  ctx_sides_ok x = true -> the_class (plug x e) = the_class e.
+Proof. intros Hx. unfold the_class. rewrite (classes_of_plug x e Hx). reflexivity. Qed.
 
-Lemma inner_status_plug (x : ctx) (e : err) : inner_status (plug x e) = inner_status e.
-Proof. induction x as [|[t|t|o] r IH]; cbn [plug inner_status]; auto. Qed.
+Lemma uniform_plug (x : ctx) (e : err) :
+  ctx_sides_ok x = true -> uniform (plug x e) = uniform e.
+Proof. intros Hx. unfold uniform. rewrite (classes_of_plug x e Hx). reflexivity. Qed.
 
 Lemma status_code_plug_sentinel (x : ctx) (c : class) :
-  status_code (plug x (Sentinel c)) = Unknown.
-Proof. rewrite status_code_inner, inner_status_plug. reflexivity. Qed.
+  ctx_sides_ok x = true -> status_code (plug x (Sentinel c)) = Unknown.
+Proof. intros Hx. rewrite status_code_inner, (inner_status_plug x _ Hx). reflexivity. Qed.
+
+(* a chain context has no side operands at all *)
+Lemma linear_sides_ok (x : ctx) : ctx_linear x = true -> ctx_sides_ok x = true.
+Proof.
+  unfold ctx_linear, ctx_sides_ok. induction x as [|[t|t|o|t0 b t a] r IH]; cbn [forallb frame_linear frame_sides_ok];
+    auto; discriminate.
+Qed.
+
+Lemma plug_linear (x : ctx) (e : err) :
+  ctx_linear x = true -> err_linear e = true -> err_linear (plug x e) = true.
+Proof.
+  unfold ctx_linear. induction x as [|[t|t|o|t0 b t a] r IH]; cbn [forallb frame_linear plug err_linear andb];
+    auto; discriminate.
+Qed.
 
 (** * Token-level split *)
 
@@ -167,6 +312,33 @@ Proof.
     cbn [length] in *; exact IH.
 Qed.
 
+(* a marker-free text appended to a message only extends its last segment *)
+Lemma split_marker_app_r (a b : msg) (ss : list msg) (q : msg) :
+  has_marker b = false -> split_marker a = ss ++ [q] ->
+  split_marker (a ++ b) = ss ++ [q ++ b].
+Proof.
+  intros Hb. revert ss q. induction a as [|t a IH]; intros ss q Ha.
+  - cbn [split_marker] in Ha. destruct ss as [|s0 [|s1 ss]]; cbn [app] in Ha.
+    + injection Ha as <-. cbn [app]. apply split_marker_free. exact Hb.
+    + discriminate Ha.
+    + discriminate Ha.
+  - destruct (is_marker t) eqn:Ht.
+    + destruct t; try discriminate Ht. cbn [app]. rewrite split_marker_marker in *.
+      destruct ss as [|s0 ss]; cbn [app] in Ha.
+      * injection Ha as _ Ha. exfalso. exact (split_marker_nonempty a Ha).
+      * injection Ha as <- Ha. cbn [app]. f_equal. apply IH. exact Ha.
+    + destruct (split_marker a) as [|s rest] eqn:Hs; [exfalso; exact (split_marker_nonempty a Hs)|].
+      rewrite (split_marker_cons t a s rest Ht Hs) in Ha.
+      destruct ss as [|s0 ss]; cbn [app] in Ha.
+      * injection Ha as <- ->. cbn [app].
+        apply (split_marker_cons t (a ++ b) (s ++ b) [] Ht). apply (IH [] s). reflexivity.
+      * injection Ha as <- ->. cbn [app].
+        apply (split_marker_cons t (a ++ b) s (ss ++ [q ++ b]) Ht). apply (IH (s :: ss) q). reflexivity.
+Qed.
+
+Lemma count_markers_app (a b : msg) : count_markers (a ++ b) = (count_markers a + count_markers b)%nat.
+Proof. unfold count_markers. rewrite filter_app, app_length. reflexivity. Qed.
+
 (** * Contexts *)
 
 Lemma ctx_marker_free_cons (f : frame) (r : ctx) :
@@ -176,12 +348,30 @@ Proof.
   unfold ctx_marker_free. cbn [forallb]. rewrite andb_true_iff, Nat.eqb_eq. tauto.
 Qed.
 
+Lemma ops_msg_app (a b : list (err * msg)) : ops_msg (a ++ b) = ops_msg a ++ ops_msg b.
+Proof. unfold ops_msg, ops_text. apply flat_map_app. Qed.
+
+(* the text of a Multi layer around the hole *)
+Lemma message_plug_multi (t0 : msg) (b : list (err * msg)) (t : msg) (a : list (err * msg)) (r : ctx) (e : err) :
+  message (plug (FMulti t0 b t a :: r) e) =
+  (t0 ++ ops_msg b) ++ message (plug r e) ++ (t ++ ops_msg a).
+Proof.
+  cbn [plug message]. change (ops_text message) with ops_msg.
+  rewrite ops_msg_app. change (ops_msg ((plug r e, t) :: a)) with ((message (plug r e) ++ t) ++ ops_msg a).
+  rewrite <- !app_assoc. reflexivity.
+Qed.
+
+Lemma multi_markers (t0 : msg) (b : list (err * msg)) (t : msg) (a : list (err * msg)) :
+  frame_markers (FMulti t0 b t a) = 0%nat ->
+  has_marker (t0 ++ ops_msg b) = false /\ has_marker (t ++ ops_msg a) = false.
+Proof. cbn [frame_markers]. intros H. split; apply has_marker_count; lia. Qed.
+
 (* a marker-free context without embeds around a marker-free error gives a marker-free message *)
 Lemma plug_marker_free (x : ctx) (e : err) :
   ctx_marker_free x = true -> ctx_embeds x = [] -> has_marker (message e) = false ->
   has_marker (message (plug x e)) = false.
 Proof.
-  intros Hx He Hl. induction x as [|[t|t|o] r IH]; [exact Hl| | |discriminate He].
+  intros Hx He Hl. induction x as [|[t|t|o|t0 b t a] r IH]; [exact Hl| | |discriminate He|].
   - apply ctx_marker_free_cons in Hx as [Ht Hr]. cbn [frame_markers] in Ht.
     cbn [plug message]. rewrite has_marker_app. cbn [has_marker existsb is_marker sep orb].
     apply has_marker_count in Ht. rewrite Ht. cbn [orb].
@@ -190,6 +380,9 @@ Proof.
     cbn [plug message]. rewrite has_marker_app.
     apply has_marker_count in Ht. rewrite Ht. cbn [orb].
     apply IH; [exact Hr|exact He].
+  - apply ctx_marker_free_cons in Hx as [Ht Hr]. destruct (multi_markers _ _ _ _ Ht) as [Hpre Hpost].
+    rewrite message_plug_multi, (has_marker_app (t0 ++ ops_msg b)), (has_marker_app (message (plug r e))).
+    rewrite Hpre, Hpost, (IH Hr He). reflexivity.
 Qed.
 
 (* with exactly one embed the message splits in three and the object is the middle segment *)
@@ -197,7 +390,7 @@ Lemma plug_one_embed_split (x : ctx) (e : err) (o : obj) :
   ctx_marker_free x = true -> ctx_embeds x = [o] -> has_marker (message e) = false ->
   exists pre post, split_marker (message (plug x e)) = [pre; [Json o]; post].
 Proof.
-  intros Hx He Hl. induction x as [|[t|t|o'] r IH]; [discriminate He| | |].
+  intros Hx He Hl. induction x as [|[t|t|o'|t0 b t a] r IH]; [discriminate He| | | |].
   - apply ctx_marker_free_cons in Hx as [Ht Hr]. cbn [frame_markers] in Ht.
     apply has_marker_count in Ht.
     destruct (IH Hr He) as (pre & post & Hs).
@@ -215,6 +408,11 @@ Proof.
       by (apply plug_marker_free; assumption).
     exists [], (sep :: message (plug r e)). cbn [plug message].
     apply split_marker_embed. exact Hm.
+  - apply ctx_marker_free_cons in Hx as [Ht Hr]. destruct (multi_markers _ _ _ _ Ht) as [Hpre Hpost].
+    destruct (IH Hr He) as (pre & post & Hs).
+    exists ((t0 ++ ops_msg b) ++ pre), (post ++ t ++ ops_msg a). rewrite message_plug_multi.
+    apply split_marker_app_free; [exact Hpre|].
+    exact (split_marker_app_r _ _ [pre; [Json o]] post Hpost Hs).
 Qed.
 
 Lemma extract_plug_one_embed (x : ctx) (e : err) (o : obj) :
@@ -239,7 +437,7 @@ Lemma build_plug (x : ctx) (e : err) :
   ctx_marker_free x = true -> (length (ctx_embeds x) <= 1)%nat -> has_marker (message e) = false ->
   build x e = Some (plug x e).
 Proof.
-  intros Hx He Hl. induction x as [|[t|t|o] r IH]; [reflexivity| | |].
+  intros Hx He Hl. induction x as [|[t|t|o|t0 b t a] r IH]; [reflexivity| | | |].
   - apply ctx_marker_free_cons in Hx as [_ Hr]. cbn [build plug].
     rewrite (IH Hr He). reflexivity.
   - apply ctx_marker_free_cons in Hx as [_ Hr]. cbn [build plug].
@@ -250,15 +448,19 @@ Proof.
     { destruct (ctx_embeds r) eqn:E; [reflexivity|]. unfold ctx_embeds in E. rewrite E in He. cbn in He. lia. }
     cbn [build plug]. rewrite IH; [|exact Hr|unfold ctx_embeds in Hnil |- *; rewrite Hnil; cbn; lia].
     unfold embed_object. rewrite (plug_marker_free r e Hr Hnil Hl). reflexivity.
+  - apply ctx_marker_free_cons in Hx as [_ Hr]. cbn [build plug].
+    rewrite (IH Hr He). reflexivity.
 Qed.
 
 Lemma has_marker_plug_mono (x : ctx) (e : err) :
   has_marker (message e) = true -> has_marker (message (plug x e)) = true.
 Proof.
-  intros H. induction x as [|[t|t|o] r IH]; [exact H| | |reflexivity].
+  intros H. induction x as [|[t|t|o|t0 b t a] r IH]; [exact H| | |reflexivity|].
   - cbn [plug message]. rewrite has_marker_app. cbn [has_marker existsb is_marker sep orb].
     fold (has_marker (message (plug r e))). rewrite IH. apply orb_true_r.
   - cbn [plug message]. rewrite has_marker_app, IH. apply orb_true_r.
+  - rewrite message_plug_multi, (has_marker_app (t0 ++ ops_msg b)), (has_marker_app (message (plug r e))), IH.
+    cbn [orb]. apply orb_true_r.
 Qed.
 
 (* EmbedObject refuses an error that already carries an object, however deeply wrapped *)
@@ -274,7 +476,7 @@ Lemma build_at_most_one_embed (x : ctx) (e e' : err) :
   e' = plug x e /\ (length (ctx_embeds x) <= 1)%nat
   /\ (ctx_embeds x <> [] -> has_marker (message e') = true).
 Proof.
-  revert e'. induction x as [|[t|t|o] r IH]; intros e' Hb Hl.
+  revert e'. induction x as [|[t|t|o|t0 b t a] r IH]; intros e' Hb Hl.
   - cbn in Hb. injection Hb as <-. cbn. repeat split; [lia|congruence].
   - cbn [build] in Hb. destruct (build r e) as [e1|] eqn:Hr; [|discriminate].
     injection Hb as <-. destruct (IH e1 eq_refl Hl) as (-> & Hlen & Hm).
@@ -294,20 +496,44 @@ Proof.
     { destruct (ctx_embeds r) eqn:E; [reflexivity|]. exfalso.
       assert (Hft : false = true) by (apply Hm; discriminate). discriminate Hft. }
     cbn [ctx_embeds flat_map app]. unfold ctx_embeds in Hnil. rewrite Hnil. cbn. split; [lia|reflexivity].
+  - cbn [build] in Hb. destruct (build r e) as [e1|] eqn:Hr; [|discriminate].
+    injection Hb as <-. destruct (IH e1 eq_refl Hl) as (-> & Hlen & Hm).
+    split; [reflexivity|]. cbn [ctx_embeds flat_map app]. split; [exact Hlen|].
+    intros Hne. change (Multi t0 (b ++ (plug r e, t) :: a)) with (plug (FMulti t0 b t a :: r) e).
+    rewrite message_plug_multi, (has_marker_app (t0 ++ ops_msg b)), (has_marker_app (message (plug r e))), (Hm Hne).
+    cbn [orb]. apply orb_true_r.
 Qed.
 
-(* the first row whose key matches the chain is the row of the chain's class *)
+(* the first row whose key matches the tree is the row of the tree's class *)
 Lemma find_row_gen (t : list (class * code)) (e : err) :
+  uniform e = true ->
   option_map snd (find (fun row => is_chain e (fst row)) t) =
-  match leaf_class e with Some c => lookup_class t c | None => None end.
+  match the_class e with Some c => lookup_class t c | None => None end.
 Proof.
-  destruct (leaf_class e) as [c|] eqn:E.
+  intros Hu. destruct (the_class e) as [c|] eqn:E.
   - induction t as [|[c0 k0] t IH]; [reflexivity|].
-    cbn [find lookup_class fst]. rewrite is_chain_leaf, E.
+    cbn [find lookup_class fst]. rewrite (is_chain_leaf e _ Hu), E.
     destruct (class_eqb c0 c) eqn:Hc; rewrite (class_eqb_sym c c0), Hc; [reflexivity|exact IH].
   - induction t as [|[c0 k0] t IH]; [reflexivity|].
-    cbn [find fst]. rewrite is_chain_leaf, E. exact IH.
+    cbn [find fst]. rewrite (is_chain_leaf e _ Hu), E. exact IH.
 Qed.
+
+(* whatever row the loop finds, it is the row of its key (the first one with that key) *)
+Lemma find_first_key (p : class -> bool) (t : list (class * code)) (row : class * code) :
+  find (fun r => p (fst r)) t = Some row ->
+  lookup_class t (fst row) = Some (snd row) /\ p (fst row) = true.
+Proof.
+  induction t as [|[c0 k0] t IH]; [discriminate|]. cbn [find fst].
+  destruct (p c0) eqn:Hp.
+  - intros [= <-]. cbn [lookup_class fst snd]. rewrite class_eqb_refl. auto.
+  - intros H. destruct (IH H) as [H1 H2]. split; [|exact H2]. cbn [lookup_class].
+    destruct (class_eqb c0 (fst row)) eqn:E; [|exact H1].
+    apply class_eqb_eq in E. subst c0. congruence.
+Qed.
+
+(* the code a class travels as: its row, or the default *)
+Definition eff_code (T : tables) (c : class) : code :=
+  match to_code T c with Some k => k | None => t_def_code T end.
 
 (** * The tables *)
 
@@ -345,47 +571,46 @@ Section Tables.
     intros H1 H2. apply class_code_roundtrip in H1, H2. congruence.
   Qed.
 
-  (* the row found by the loop of GRPCStatusCode is the row of the chain's class *)
+  (* the row found by the loop of GRPCStatusCode is the row of the tree's class *)
   Lemma find_row (e : err) :
+    uniform e = true ->
     option_map snd (find (fun row => is_chain e (fst row)) (t_e2c T)) =
-    match leaf_class e with Some c => to_code T c | None => None end.
+    match the_class e with Some c => to_code T c | None => None end.
   Proof. apply find_row_gen. Qed.
 
-  (* GRPCStatusCode of an error that is not a status error *)
+  (* errorsToCode[err]: only a sentinel itself is a key *)
+  Lemma direct_lookup (e : err) (k : code) :
+    match e with Sentinel c => to_code T c | _ => None end = Some k ->
+    exists c, e = Sentinel c /\ to_code T c = Some k.
+  Proof. destruct e as [c|t|c t|k0 m|t e|t e|o e|t0 ps]; try discriminate. intros H. exists c. auto. Qed.
+
+  (* GRPCStatusCode of an error that is not a status error and has one class (or none) *)
   Lemma grpc_status_code_unknown (e : err) :
-    status_code e = Unknown ->
+    status_code e = Unknown -> uniform e = true ->
     grpc_status_code T e =
-    match leaf_class e with
-    | Some c => match to_code T c with Some k => k | None => t_def_code T end
-    | None => t_def_code T
-    end.
+    match the_class e with Some c => eff_code T c | None => t_def_code T end.
   Proof.
-    intros Hu. unfold grpc_status_code. rewrite Hu. cbn [code_eqb code_num N.eqb negb].
-    pose proof (find_row e) as Hf.
-    destruct e as [c|t|k m|t e|t e|o e]; cbn [leaf_class] in *.
-    - destruct (to_code T c) as [k|] eqn:Hk; [reflexivity|].
-      destruct (find _ _); [discriminate Hf|reflexivity].
-    - destruct (find _ _); [discriminate Hf|reflexivity].
-    - destruct (find _ _); [discriminate Hf|reflexivity].
+    intros Hu Hun. unfold grpc_status_code. rewrite Hu. cbn [code_eqb code_num N.eqb negb].
+    pose proof (find_row e Hun) as Hf.
+    destruct (match e with Sentinel c => to_code T c | _ => None end) as [k|] eqn:Hd.
+    - destruct (direct_lookup e k Hd) as (c & -> & Hk). unfold eff_code. cbn [the_class classes_of hd_error].
+      rewrite Hk. reflexivity.
     - destruct (find _ _) as [row|]; cbn [option_map] in Hf.
-      + destruct (leaf_class e) as [c|]; [|discriminate]. rewrite <- Hf. reflexivity.
-      + destruct (leaf_class e) as [c|]; [rewrite <- Hf|]; reflexivity.
-    - destruct (find _ _) as [row|]; cbn [option_map] in Hf.
-      + destruct (leaf_class e) as [c|]; [|discriminate]. rewrite <- Hf. reflexivity.
-      + destruct (leaf_class e) as [c|]; [rewrite <- Hf|]; reflexivity.
-    - destruct (find _ _) as [row|]; cbn [option_map] in Hf.
-      + destruct (leaf_class e) as [c|]; [|discriminate]. rewrite <- Hf. reflexivity.
-      + destruct (leaf_class e) as [c|]; [rewrite <- Hf|]; reflexivity.
+      + destruct (the_class e) as [c|]; [|discriminate]. unfold eff_code. rewrite <- Hf. reflexivity.
+      + destruct (the_class e) as [c|]; [unfold eff_code; rewrite <- Hf|]; reflexivity.
   Qed.
 
+  (* every error value: GRPCStatusCode never answers OK or Unknown for an error that is not a status error *)
   Lemma grpc_status_code_proper (e : err) :
     status_code e = Unknown ->
     grpc_status_code T e <> OK /\ grpc_status_code T e <> Unknown.
   Proof.
-    intros Hu. rewrite (grpc_status_code_unknown e Hu).
-    destruct (leaf_class e) as [c|]; [|exact def_code_ok].
-    destruct (to_code T c) as [k|] eqn:Hk; [|exact def_code_ok].
-    destruct (row_ok c k Hk) as (H1 & H2 & _). auto.
+    intros Hu. unfold grpc_status_code. rewrite Hu. cbn [code_eqb code_num N.eqb negb].
+    destruct (match e with Sentinel c => to_code T c | _ => None end) as [k|] eqn:Hd.
+    - destruct (direct_lookup e k Hd) as (c & _ & Hk). destruct (row_ok c k Hk) as (H1 & H2 & _). auto.
+    - destruct (find _ _) as [row|] eqn:Hf; [|exact def_code_ok].
+      destruct (find_first_key (is_chain e) (t_e2c T) row Hf) as [Hk _].
+      destruct (row_ok (fst row) (snd row) Hk) as (H1 & H2 & _). auto.
   Qed.
 
   Lemma status_error_some (k : code) (m : msg) : k <> OK -> status_error k m = Some (Status k m).
@@ -412,7 +637,7 @@ Section Tables.
     - eexists. split; [exact Hw|]. exact H2.
   Qed.
 
-  (** GRPCWrap is idempotent *)
+  (** GRPCWrap is idempotent: every error value, trees included *)
   Lemma grpc_wrap_idem (e : option err) :
     grpc_wrap_o T (grpc_wrap_o T e) = grpc_wrap_o T e.
   Proof.
@@ -421,64 +646,128 @@ Section Tables.
     unfold grpc_wrap. apply code_eqb_neq in Hc. rewrite Hc. reflexivity.
   Qed.
 
-  (* GRPCWrap of a chain around a sentinel *)
+  (* GRPCWrap of a tree without a status error all of whose classes are the class c *)
+  Lemma grpc_wrap_tree (e : err) (c : class) :
+    inner_status e = None -> uniform e = true -> the_class e = Some c ->
+    grpc_wrap T e = Some (Status (eff_code T c) (message e)).
+  Proof.
+    intros Hs Hun Hc.
+    assert (Hu : status_code e = Unknown) by (rewrite status_code_inner, Hs; reflexivity).
+    destruct (grpc_wrap_cases e) as [[Hu' _]|(_ & Hw & _)]; [congruence|].
+    rewrite Hw, (grpc_status_code_unknown e Hu Hun), Hc. reflexivity.
+  Qed.
+
+  (* GRPCWrap of a context around a sentinel *)
   Lemma grpc_wrap_plug_sentinel (x : ctx) (c : class) :
+    ctx_sides_ok x = true ->
     grpc_wrap T (plug x (Sentinel c)) =
     Some (Status (match to_code T c with Some k => k | None => t_def_code T end)
                  (message (plug x (Sentinel c)))).
   Proof.
-    destruct (grpc_wrap_cases (plug x (Sentinel c))) as [[Hu _]|(Hu & Hw & _)].
-    - exfalso. apply Hu. apply status_code_plug_sentinel.
-    - rewrite Hw, (grpc_status_code_unknown _ Hu), leaf_class_plug. reflexivity.
+    intros Hx. apply (grpc_wrap_tree (plug x (Sentinel c)) c).
+    - rewrite (inner_status_plug x _ Hx). reflexivity.
+    - rewrite (uniform_plug x _ Hx). reflexivity.
+    - rewrite (the_class_plug x _ Hx). reflexivity.
   Qed.
 
   Lemma Is_status (k : code) (m : msg) (c' : class) :
     Is T (Status k m) c' = match from_code T k with Some c0 => class_eqb c0 c' | None => false end.
   Proof. reflexivity. Qed.
 
-  (** the class survives GRPCWrap, and no other class appears *)
-  Lemma class_survives (c : class) (k : code) (x : ctx) (c' : class) :
-    to_code T c = Some k ->
-    Is_o T (grpc_wrap T (plug x (Sentinel c))) c' = class_eqb c' c.
+  Lemma eff_code_row (c : class) (k : code) : to_code T c = Some k -> eff_code T c = k.
+  Proof. intros H. unfold eff_code. rewrite H. reflexivity. Qed.
+
+  Lemma eff_code_proper (c : class) : eff_code T c <> OK /\ eff_code T c <> Unknown.
   Proof.
-    intros Hk. rewrite grpc_wrap_plug_sentinel, Hk. cbn [Is_o]. rewrite Is_status.
+    unfold eff_code. destruct (to_code T c) as [k|] eqn:Hk; [|exact def_code_ok].
+    destruct (row_ok c k Hk) as (H1 & H2 & _). auto.
+  Qed.
+
+  (** the class survives GRPCWrap, and no other class appears: every TREE
+      without a status error in which errors.Is can find the class c (at
+      least once) and no other class *)
+  Lemma class_survives_tree (e : err) (c : class) (k : code) (c' : class) :
+    inner_status e = None -> uniform e = true -> the_class e = Some c ->
+    to_code T c = Some k ->
+    Is_o T (grpc_wrap T e) c' = class_eqb c' c.
+  Proof.
+    intros Hs Hun Hc Hk. rewrite (grpc_wrap_tree e c Hs Hun Hc), (eff_code_row c k Hk).
+    cbn [Is_o]. rewrite Is_status.
     rewrite (class_code_roundtrip c k Hk). apply class_eqb_sym.
   Qed.
 
+  (** the same for a wrapping context (a path through the tree, every side
+      operand of which brings neither a class nor a status error) around the sentinel *)
+  Lemma class_survives (c : class) (k : code) (x : ctx) (c' : class) :
+    ctx_sides_ok x = true -> to_code T c = Some k ->
+    Is_o T (grpc_wrap T (plug x (Sentinel c))) c' = class_eqb c' c.
+  Proof.
+    intros Hx Hk. rewrite (grpc_wrap_plug_sentinel x c Hx), Hk. cbn [Is_o]. rewrite Is_status.
+    rewrite (class_code_roundtrip c k Hk). apply class_eqb_sym.
+  Qed.
+
+  (** the chain statement: contexts of single-operand layers need no side condition *)
+  Lemma class_survives_linear (c : class) (k : code) (x : ctx) (c' : class) :
+    ctx_linear x = true -> to_code T c = Some k ->
+    Is_o T (grpc_wrap T (plug x (Sentinel c))) c' = class_eqb c' c.
+  Proof. intros Hx. apply class_survives, linear_sides_ok, Hx. Qed.
+
   (** a class without a code travels as the default code *)
   Lemma class_without_code (c : class) (x : ctx) (c' : class) :
-    to_code T c = None ->
+    ctx_sides_ok x = true -> to_code T c = None ->
     Is_o T (grpc_wrap T (plug x (Sentinel c))) c' =
     match from_code T (t_def_code T) with Some c0 => class_eqb c0 c' | None => false end.
-  Proof. intros Hk. rewrite grpc_wrap_plug_sentinel, Hk. reflexivity. Qed.
+  Proof. intros Hx Hk. rewrite (grpc_wrap_plug_sentinel x c Hx), Hk. reflexivity. Qed.
 
   (** the peer receives the same status error *)
+  Lemma transport_wrapped_tree (e : err) (c : class) :
+    inner_status e = None -> uniform e = true -> the_class e = Some c ->
+    transport_o (grpc_wrap T e) = grpc_wrap T e.
+  Proof.
+    intros Hs Hun Hc. rewrite (grpc_wrap_tree e c Hs Hun Hc). cbn [transport_o transport from_error].
+    apply status_error_some, eff_code_proper.
+  Qed.
+
   Lemma transport_wrapped (x : ctx) (c : class) :
+    ctx_sides_ok x = true ->
     transport_o (grpc_wrap T (plug x (Sentinel c))) = grpc_wrap T (plug x (Sentinel c)).
   Proof.
-    rewrite grpc_wrap_plug_sentinel. cbn [transport_o transport from_error].
-    apply status_error_some.
-    destruct (to_code T c) as [k|] eqn:Hk; [apply (row_ok c k Hk)|apply def_code_ok].
+    intros Hx. apply (transport_wrapped_tree _ c).
+    - rewrite (inner_status_plug x _ Hx). reflexivity.
+    - rewrite (uniform_plug x _ Hx). reflexivity.
+    - rewrite (the_class_plug x _ Hx). reflexivity.
   Qed.
 
   (** GRPCStatusCode of the wrapped error is the code of the class *)
-  Lemma wrapped_code (c : class) (k : code) (x : ctx) :
+  Lemma wrapped_code_tree (e : err) (c : class) (k : code) :
+    inner_status e = None -> uniform e = true -> the_class e = Some c ->
     to_code T c = Some k ->
-    grpc_status_code_o T (grpc_wrap T (plug x (Sentinel c))) = k.
+    grpc_status_code_o T (grpc_wrap T e) = k.
   Proof.
-    intros Hk. rewrite grpc_wrap_plug_sentinel, Hk. cbn [grpc_status_code_o].
-    unfold grpc_status_code. cbn [status_code from_error fst].
+    intros Hs Hun Hc Hk. rewrite (grpc_wrap_tree e c Hs Hun Hc), (eff_code_row c k Hk).
+    cbn [grpc_status_code_o]. unfold grpc_status_code. cbn [status_code from_error fst].
     destruct (row_ok c k Hk) as (_ & Hu & _). apply code_eqb_neq in Hu. rewrite Hu. reflexivity.
   Qed.
 
-  (** before GRPCWrap: Is sees the class in the chain (and, because a plain
+  Lemma wrapped_code (c : class) (k : code) (x : ctx) :
+    ctx_sides_ok x = true -> to_code T c = Some k ->
+    grpc_status_code_o T (grpc_wrap T (plug x (Sentinel c))) = k.
+  Proof.
+    intros Hx Hk. apply (wrapped_code_tree _ c k); [| | |exact Hk].
+    - rewrite (inner_status_plug x _ Hx). reflexivity.
+    - rewrite (uniform_plug x _ Hx). reflexivity.
+    - rewrite (the_class_plug x _ Hx). reflexivity.
+  Qed.
+
+  (** before GRPCWrap: Is sees the class in the tree (and, because a plain
       error has status code Unknown, the class grpcToErrors gives to Unknown) *)
   Lemma Is_plain_chain (x : ctx) (c c' : class) :
+    ctx_sides_ok x = true ->
     Is T (plug x (Sentinel c)) c' =
     class_eqb c c' || match from_code T Unknown with Some c0 => class_eqb c0 c' | None => false end.
   Proof.
-    unfold Is, from_grpc. rewrite is_chain_plug, status_code_plug_sentinel. cbn [is_chain].
-    destruct (class_eqb c c'); reflexivity.
+    intros Hx. unfold Is, from_grpc. rewrite (is_chain_plug x _ _ Hx), (status_code_plug_sentinel x c Hx).
+    cbn [is_chain]. destruct (class_eqb c c'); reflexivity.
   Qed.
 
   (** GRPCWrap keeps the message text *)
@@ -516,27 +805,34 @@ Section Tables.
 
   (** the embedded object is still extractable after GRPCWrap and on the other side *)
   Lemma embed_survives (x : ctx) (c : class) (o : obj) :
-    ctx_marker_free x = true -> ctx_embeds x = [o] ->
+    ctx_sides_ok x = true -> ctx_marker_free x = true -> ctx_embeds x = [o] ->
     extract_o (grpc_wrap T (plug x (Sentinel c))) = Some o /\
     extract_o (transport_o (grpc_wrap T (plug x (Sentinel c)))) = Some o.
   Proof.
-    intros Hx He. rewrite transport_wrapped, grpc_wrap_keeps_object.
+    intros Hs Hx He. rewrite (transport_wrapped x c Hs), grpc_wrap_keeps_object.
     split; apply extract_plug_one_embed; auto.
   Qed.
 
+  Lemma embed_survives_linear (x : ctx) (c : class) (o : obj) :
+    ctx_linear x = true -> ctx_marker_free x = true -> ctx_embeds x = [o] ->
+    extract_o (grpc_wrap T (plug x (Sentinel c))) = Some o /\
+    extract_o (transport_o (grpc_wrap T (plug x (Sentinel c)))) = Some o.
+  Proof. intros Hl. apply embed_survives, linear_sides_ok, Hl. Qed.
+
   (** any iteration order over errorsToCode gives the same row: every row
-      that matches the chain is the row [find] returns, provided the keys of
-      the table are distinct (they are keys of a Go map) *)
+      that matches the tree is the row [find] returns, provided the keys of
+      the table are distinct (they are keys of a Go map) and the tree has one class *)
   Lemma any_matching_row_is_found (e : err) (row : class * code) :
+    uniform e = true ->
     NoDup (map fst (t_e2c T)) -> In row (t_e2c T) -> is_chain e (fst row) = true ->
     find (fun r => is_chain e (fst r)) (t_e2c T) = Some row.
   Proof.
-    intros Hnd Hin Hm. induction (t_e2c T) as [|r0 t IH]; [destruct Hin|].
+    intros Hun Hnd Hin Hm. induction (t_e2c T) as [|r0 t IH]; [destruct Hin|].
     cbn [find]. cbn [map] in Hnd. inversion Hnd as [|? ? Hnotin Hnd']; subst.
     destruct Hin as [->|Hin].
     - rewrite Hm. reflexivity.
     - destruct (is_chain e (fst r0)) eqn:H0.
-      + exfalso. apply Hnotin. rewrite (is_chain_unique e _ _ H0 Hm). apply in_map. exact Hin.
+      + exfalso. apply Hnotin. rewrite (is_chain_unique e _ _ Hun H0 Hm). apply in_map. exact Hin.
       + apply IH; assumption.
   Qed.
 End Tables.
@@ -602,28 +898,45 @@ Proof.
 Qed.
 
 Lemma std_class_survives (c : class) (x : ctx) (c' : class) :
-  In c classes_with_code ->
+  ctx_sides_ok x = true -> In c classes_with_code ->
   Is_o std_tables (grpc_wrap std_tables (plug x (Sentinel c))) c' = class_eqb c' c /\
   Is_o std_tables (transport_o (grpc_wrap std_tables (plug x (Sentinel c)))) c' = class_eqb c' c.
 Proof.
-  intros Hin. apply std_has_code in Hin as [k Hk].
-  rewrite (transport_wrapped std_tables std_tables_ok).
-  split; exact (class_survives std_tables std_tables_ok c k x c' Hk).
+  intros Hx Hin. apply std_has_code in Hin as [k Hk].
+  rewrite (transport_wrapped std_tables std_tables_ok x c Hx).
+  split; exact (class_survives std_tables std_tables_ok c k x c' Hx Hk).
+Qed.
+
+Lemma std_class_survives_linear (c : class) (x : ctx) (c' : class) :
+  ctx_linear x = true -> In c classes_with_code ->
+  Is_o std_tables (grpc_wrap std_tables (plug x (Sentinel c))) c' = class_eqb c' c /\
+  Is_o std_tables (transport_o (grpc_wrap std_tables (plug x (Sentinel c)))) c' = class_eqb c' c.
+Proof. intros Hl. apply std_class_survives, linear_sides_ok, Hl. Qed.
+
+(* every tree without a status error whose classes are all the class c *)
+Lemma std_class_survives_tree (e : err) (c : class) (c' : class) :
+  inner_status e = None -> uniform e = true -> the_class e = Some c -> In c classes_with_code ->
+  Is_o std_tables (grpc_wrap std_tables e) c' = class_eqb c' c /\
+  Is_o std_tables (transport_o (grpc_wrap std_tables e)) c' = class_eqb c' c.
+Proof.
+  intros Hs Hun Hc Hin. apply std_has_code in Hin as [k Hk].
+  rewrite (transport_wrapped_tree std_tables std_tables_ok e c Hs Hun Hc).
+  split; exact (class_survives_tree std_tables std_tables_ok e c k c' Hs Hun Hc Hk).
 Qed.
 
 (* ErrClosed and ErrCommunication have no code: they travel as Internal and come back as ErrInternal *)
 Lemma std_class_without_code (c : class) (x : ctx) (c' : class) :
-  ~ In c classes_with_code ->
+  ctx_sides_ok x = true -> ~ In c classes_with_code ->
   (c = ErrClosed \/ c = ErrCommunication) /\
   Is_o std_tables (grpc_wrap std_tables (plug x (Sentinel c))) c' = class_eqb c' ErrInternal /\
   grpc_status_code_o std_tables (grpc_wrap std_tables (plug x (Sentinel c))) = Internal.
 Proof.
-  intros Hn.
+  intros Hx Hn.
   assert (Hc : c = ErrClosed \/ c = ErrCommunication).
   { destruct c; auto; exfalso; apply Hn; cbn; tauto. }
   split; [exact Hc|].
   assert (Hk : to_code std_tables c = None) by (destruct Hc as [-> | ->]; reflexivity).
-  rewrite (grpc_wrap_plug_sentinel std_tables std_tables_ok), Hk.
+  rewrite (grpc_wrap_plug_sentinel std_tables std_tables_ok x c Hx), Hk.
   split; [|reflexivity].
   cbn [Is_o]. rewrite Is_status. destruct c'; reflexivity.
 Qed.
@@ -657,9 +970,6 @@ Proof. vm_compute. reflexivity. Qed.
     default) and the default code.  It does not depend on the order of the
     rows or on rows that repeat a default. *)
 
-Definition eff_code (T : tables) (c : class) : code :=
-  match to_code T c with Some k => k | None => t_def_code T end.
-
 Definition tables_equiv (T1 T2 : tables) : bool :=
   forallb (fun k => oclass_eqb (from_code T1 k) (from_code T2 k)) all_codes
   && forallb (fun c => code_eqb (eff_code T1 c) (eff_code T2 c)) all_classes
@@ -687,28 +997,32 @@ Qed.
 
 (* GRPCStatusCode only sees the effective codes *)
 Lemma grpc_status_code_eff (T : tables) (e : err) :
+  uniform e = true ->
   grpc_status_code T e =
   if negb (code_eqb (status_code e) Unknown) then status_code e
-  else match leaf_class e with Some c => eff_code T c | None => t_def_code T end.
+  else match the_class e with Some c => eff_code T c | None => t_def_code T end.
 Proof.
-  destruct (code_eqb_spec (status_code e) Unknown) as [Hu|Hu]; cbn [negb].
-  - rewrite (grpc_status_code_unknown T e Hu). reflexivity.
+  intros Hun. destruct (code_eqb_spec (status_code e) Unknown) as [Hu|Hu]; cbn [negb].
+  - rewrite (grpc_status_code_unknown T e Hu Hun). reflexivity.
   - unfold grpc_status_code. apply code_eqb_neq in Hu. rewrite Hu. reflexivity.
 Qed.
 
-(** equivalent tables give the same model functions on every error value *)
+(** equivalent tables give the same model functions on every error value
+    with at most one class (for a tree with two different classes the result
+    of GRPCStatusCode depends on the order of the rows, as it depends on the
+    iteration order of the map in Go) *)
 Lemma equiv_behaviour (T1 T2 : tables) :
   tables_equiv T1 T2 = true ->
-  forall e : err,
+  forall e : err, uniform e = true ->
     grpc_status_code T1 e = grpc_status_code T2 e /\
     from_grpc T1 e = from_grpc T2 e /\
     (forall c, Is T1 e c = Is T2 e c) /\
     grpc_wrap T1 e = grpc_wrap T2 e.
 Proof.
-  intros H e. destruct (tables_equiv_spec T1 T2 H) as (Hf & He & Hd).
+  intros H e Hun. destruct (tables_equiv_spec T1 T2 H) as (Hf & He & Hd).
   assert (Hc : grpc_status_code T1 e = grpc_status_code T2 e).
-  { rewrite !grpc_status_code_eff. destruct (negb _); [reflexivity|].
-    destruct (leaf_class e) as [c|]; [apply He|exact Hd]. }
+  { rewrite !(grpc_status_code_eff _ e Hun). destruct (negb _); [reflexivity|].
+    destruct (the_class e) as [c|]; [apply He|exact Hd]. }
   assert (Hg : from_grpc T1 e = from_grpc T2 e) by (unfold from_grpc; apply Hf).
   repeat split.
   - exact Hc.
